@@ -9,6 +9,7 @@ import (
 	"encoding/json"
 	"fmt"
 	"net/url"
+	"os"
 	"path"
 	"sort"
 	"strconv"
@@ -33,6 +34,7 @@ type exInput struct {
 	Op       string                     `json:"op,omitempty"`
 	Element  json.RawMessage            `json:"element,omitempty"`
 	Entry    string                     `json:"entry,omitempty"`
+	Pointer  string                     `json:"pointer,omitempty"` // the root position the element was taken from
 	Tags     []string                   `json:"tags,omitempty"`
 	g        *exGraph
 }
@@ -112,6 +114,10 @@ func (t *exTally) graph(g *exGraph) {
 func (t *exTally) eval(in interface{}, fs []exFinding, shrink func(exFinding) (interface{}, *exFinding)) {
 	t.res.Evaluations++
 	for _, f := range fs {
+		if strings.HasPrefix(f.Shape, "stat:") { // not a failure: a remark on what the evaluation covered
+			t.res.Stats[strings.TrimPrefix(f.Shape, "stat:")]++
+			continue
+		}
 		t.res.Stats["fail:"+f.Shape]++
 		if t.res.Stats["fail:"+f.Shape] > 3 {
 			continue
@@ -139,7 +145,20 @@ func exReplay(prop string, check func(*exInput) []exFinding) func(json.RawMessag
 			t.res.Failures = append(t.res.Failures, failure{Property: prop, What: "bad replay input"})
 			return t.res
 		}
-		t.eval(in, check(in), nil)
+		var fs []exFinding
+		for k := 0; k < 8; k++ { // the outcome may depend on Go's map iteration order
+			in.g = nil
+			fs = nil
+			for _, f := range check(in) {
+				if !strings.HasPrefix(f.Shape, "stat:") {
+					fs = append(fs, f)
+				}
+			}
+			if len(fs) > 0 {
+				break
+			}
+		}
+		t.eval(in, fs, nil)
 		return t.res
 	}
 }
@@ -153,8 +172,16 @@ func exDecode(raw json.RawMessage) interface{} {
 func exView(v interface{}) interface{} { return exClip(exJSON(v), 1500) }
 
 // qualified shape: a failure on a graph that contains the ingredients of a known defect carries its name
-func exShape(base string, g *exGraph, abs bool) string {
-	ks := g.analyse().knownShape()
+func exShape(base string, g *exGraph, abs bool, at ...string) string {
+	info := g.analyse()
+	if len(at) > 0 {
+		// only what the failing position can reach counts
+		info = exAnalyseAt(g.store(), g.Root, at...)
+	}
+	ks := info.knownShape()
+	if g.hasTag("id") {
+		ks = "id" // an `id` registers a pseudo document for the whole run
+	}
 	if ks == "response-imported-circular" && abs {
 		ks = "" // that defect needs the relative rendering of circular references
 	}
@@ -187,6 +214,9 @@ func exShrinkGraph(g *exGraph, fails func(*exGraph) bool) *exGraph {
 			return false
 		}
 		budget--
+		if exDebug {
+			fmt.Fprintf(os.Stderr, "shrink: budget %d docs %d size %d\n", budget, len(c.Docs), len(c.key()))
+		}
 		if fails(c) {
 			cur = c
 			return true
@@ -338,10 +368,20 @@ func exShrinker(in *exInput, check func(*exInput) []exFinding) func(exFinding) (
 			return false
 		}
 		var best *exFinding
-		wellFormed := !in.graph().hasTag("unresolvable")
+		// stay inside the domain of the property: no reference becomes unresolvable by shrinking
+		unresolvable := func(g *exGraph) int {
+			n := 0
+			for _, x := range g.analyse().Nodes {
+				if !x.Exists {
+					n++
+				}
+			}
+			return n
+		}
+		limit := unresolvable(in.graph())
 		g := exShrinkGraph(in.graph(), func(c *exGraph) bool {
-			if wellFormed && c.hasTag("unresolvable") {
-				return false // stay inside the domain of the property: every reference resolvable
+			if unresolvable(c) > limit {
+				return false
 			}
 			if hit(in.withGraph(c)) {
 				best = last
@@ -384,13 +424,15 @@ func exCompareElements(sa exStore, a interface{}, sb exStore, b interface{}, roo
 
 const exDepth = 6
 
+var exDebug = os.Getenv("VERIF_EX_DEBUG") != ""
+
 func checkC02(in *exInput) []exFinding {
 	g := in.graph()
 	o := in.opts()
 	o.Skip, o.Cont = false, false
 	res := exExpand(g, o)
 	if !res.ok() {
-		return nil // the property is about successful expansions
+		return []exFinding{{Shape: "stat:expansion-not-successful"}} // the property is about successful expansions
 	}
 	s := g.store()
 	out := exDecode(res.Out)
@@ -398,9 +440,9 @@ func checkC02(in *exInput) []exFinding {
 	if kind == "" {
 		return nil
 	}
-	shape := exShape("meaning:"+kind, g, o.Abs)
-	if ks := g.analyse().knownShape(); ks != "" && strings.HasSuffix(shape, ks) {
-		shape = ks
+	shape := exShape("meaning:"+kind, g, o.Abs, ptr)
+	if i := strings.Index(shape[len("meaning:"):], ":"); i >= 0 {
+		shape = shape[len("meaning:")+i+1:] // the name of the known defect alone
 	}
 	return []exFinding{{Shape: shape, What: fmt.Sprintf("expansion changes the meaning of %s (abs=%v)", ptr, o.Abs), Obs: exView(got), Exp: exView(want)}}
 }
@@ -456,26 +498,27 @@ func checkC03(in *exInput) []exFinding {
 	for _, h := range exRemainingRefs(g.Root, out) {
 		t, ok := exCanonRef(g.Root, h.Ref)
 		where := fmt.Sprintf("`$ref` %q left at %s", h.Ref, h.ptr())
+		top := exPtr(h.Path[:2])
 		n := info.Nodes[t.String()]
 		v, found := s.lookup(t)
 		_, isObj := v.(map[string]interface{})
 		switch {
 		case !ok || !found || !isObj:
-			fs = append(fs, exFinding{Shape: exShape("ref-unresolvable", g, o.Abs), What: where + " does not resolve from the root location", Obs: t.String()})
+			fs = append(fs, exFinding{Shape: exShape("ref-unresolvable", g, o.Abs, top), What: where + " does not resolve from the root location", Obs: t.String()})
 			continue
 		case info.Acyclic:
-			fs = append(fs, exFinding{Shape: exShape("ref-left-acyclic", g, o.Abs), What: where + " although the reference graph is acyclic", Obs: t.String()})
+			fs = append(fs, exFinding{Shape: exShape("ref-left-acyclic", g, o.Abs, top), What: where + " although the reference graph is acyclic", Obs: t.String()})
 			continue
 		case n == nil || !n.OnCycle:
-			fs = append(fs, exFinding{Shape: exShape("ref-not-on-cycle", g, o.Abs), What: where + " designates a node that is on no reference cycle of the input", Obs: t.String()})
+			fs = append(fs, exFinding{Shape: exShape("ref-not-on-cycle", g, o.Abs, top), What: where + " designates a node that is on no reference cycle of the input", Obs: t.String()})
 			continue
 		}
 		docPart := strings.SplitN(h.Ref, "#", 2)[0]
 		if o.Abs && docPart != t.Doc {
-			fs = append(fs, exFinding{Shape: exShape("ref-rendering", g, o.Abs), What: where + " is not an absolute canonical URL (AbsoluteCircularRef)", Obs: h.Ref, Exp: t.String()})
+			fs = append(fs, exFinding{Shape: exShape("ref-rendering", g, o.Abs, top), What: where + " is not an absolute canonical URL (AbsoluteCircularRef)", Obs: h.Ref, Exp: t.String()})
 		}
 		if !o.Abs && t.Doc == g.Root && !strings.HasPrefix(h.Ref, "#") {
-			fs = append(fs, exFinding{Shape: exShape("ref-rendering", g, o.Abs), What: where + " points into the root document but is not fragment-only", Obs: h.Ref, Exp: "#" + t.Ptr})
+			fs = append(fs, exFinding{Shape: exShape("ref-rendering", g, o.Abs, top), What: where + " points into the root document but is not fragment-only", Obs: h.Ref, Exp: "#" + t.Ptr})
 		}
 	}
 	if info.Acyclic {
@@ -559,7 +602,11 @@ func checkC04(in *exInput) []exFinding {
 			break // the other calls on this graph would time out as well
 		}
 		if res.Panic != "" {
-			fs = append(fs, exFinding{Shape: "panic", What: exCallLabel(c) + " panics", Obs: res.Panic})
+			shape := "panic"
+			if strings.Contains(res.Panic, "called using nil") {
+				shape = "panic:absent-member" // a pointer designating an optional member that is not there
+			}
+			fs = append(fs, exFinding{Shape: shape, What: exCallLabel(c) + " panics", Obs: res.Panic})
 		}
 	}
 	return exFirstPerShape(fs)
@@ -620,7 +667,7 @@ func checkC08(in *exInput) []exFinding {
 			continue
 		}
 		if must && !res.Err {
-			fs = append(fs, exFinding{Shape: "silent-failure", What: fmt.Sprintf("skip=%v: no error although %s has to be followed and cannot be resolved", skip, witness)})
+			fs = append(fs, exFinding{Shape: exShape("silent-failure", g, false), What: fmt.Sprintf("skip=%v: no error although %s has to be followed and cannot be resolved", skip, witness)})
 		}
 		if !must && res.Err {
 			fs = append(fs, exFinding{Shape: exShape("spurious-error", g, false), What: fmt.Sprintf("skip=%v: error although every reference that has to be followed is resolvable", skip), Obs: res.ErrText})
@@ -648,7 +695,11 @@ func checkC08(in *exInput) []exFinding {
 			ov, _ := exAt(out, h.Path)
 			got, _ := exRefOf(exSchema, ov)
 			if got != h.Ref && got != exLibRef(h.Ref) {
-				fs = append(fs, exFinding{Shape: "ref-lost", What: "unresolvable schema `$ref` at " + h.ptr() + " is not left verbatim by ContinueOnError", Obs: exView(ov), Exp: h.Ref})
+				shape := "ref-lost"
+				if _, there := s.lookup(t); there {
+					shape = "ref-lost:ill-typed" // the target exists but is not an object
+				}
+				fs = append(fs, exFinding{Shape: shape, What: "unresolvable schema `$ref` at " + h.ptr() + " is not left verbatim by ContinueOnError", Obs: exView(ov), Exp: h.Ref})
 			}
 		}
 	}
@@ -675,7 +726,7 @@ func checkC08(in *exInput) []exFinding {
 		}
 		x, y := so.unfold(g.Root, a, k.Kind, exDepth), so0.unfold(g.Root, b, k.Kind, exDepth)
 		if exJSON(x) != exJSON(y) || (g0.Acyclic && exJSON(a) != exJSON(b)) {
-			fs = append(fs, exFinding{Shape: exShape("independent-differs", g, false),
+			fs = append(fs, exFinding{Shape: exShape("independent-differs", g, false, exPtr(k.Path)),
 				What: exPtr(k.Path) + " does not depend on a broken reference but is not expanded as in the repaired graph", Obs: exView(a), Exp: exView(b)})
 			break
 		}
@@ -699,10 +750,17 @@ func checkC09(in *exInput) []exFinding {
 	var fs []exFinding
 	for _, h := range exRemainingRefs(g.Root, out) {
 		if h.Kind != exSchema {
-			fs = append(fs, exFinding{Shape: exShape("element-ref-left", g, false), What: "a " + h.Kind + " `$ref` remains at " + h.ptr(), Obs: h.Ref})
+			fs = append(fs, exFinding{Shape: exShape("element-ref-left", g, false, exPtr(h.Path[:2])), What: "a " + h.Kind + " `$ref` remains at " + h.ptr(), Obs: h.Ref})
 		}
 	}
-	din, _ := exAt(rootIn, []string{"definitions"})
+	// (modulo the codec: the text of a `$ref` is re-printed by decoding and encoding alone)
+	var viaCodec interface{} = rootIn
+	if sw := new(spec.Swagger); json.Unmarshal(g.Docs[g.Root], sw) == nil {
+		if b, err := json.Marshal(sw); err == nil {
+			viaCodec = exDecode(b)
+		}
+	}
+	din, _ := exAt(viaCodec, []string{"definitions"})
 	dout, _ := exAt(out, []string{"definitions"})
 	if exJSON(din) != exJSON(dout) {
 		fs = append(fs, exFinding{Shape: "definitions-touched", What: "the definitions section is modified", Obs: exView(dout), Exp: exView(din)})
@@ -718,14 +776,14 @@ func checkC09(in *exInput) []exFinding {
 		}
 		a, b := s.canonTree(g.Root, k.V, k.Kind, 12), so.canonTree(g.Root, ov, k.Kind, 12)
 		if exJSON(a) != exJSON(b) {
-			fs = append(fs, exFinding{Shape: exShape("schema-ref-retargeted", g, false),
+			fs = append(fs, exFinding{Shape: exShape("schema-ref-retargeted", g, false, exPtr(k.Path)),
 				What: "under " + exPtr(k.Path) + ": the dereferenced element or the canonical targets of its schema `$ref`s differ from the input", Obs: exView(b), Exp: exView(a)})
 			break
 		}
 	}
 	for _, h := range exRemainingRefs(g.Root, out) {
 		if t, ok := exCanonRef(g.Root, h.Ref); ok && h.Kind == exSchema && t.Doc == g.Root && !strings.HasPrefix(h.Ref, "#") && !strings.HasPrefix(h.ptr(), "/definitions/") {
-			fs = append(fs, exFinding{Shape: exShape("ref-rendering", g, false), What: "schema `$ref` at " + h.ptr() + " points into the root document but is not fragment-only", Obs: h.Ref})
+			fs = append(fs, exFinding{Shape: exShape("ref-rendering", g, false, exPtr(h.Path[:2])), What: "schema `$ref` at " + h.ptr() + " points into the root document but is not fragment-only", Obs: h.Ref})
 		}
 	}
 	// a full expansion afterwards gives what a direct full expansion gives
@@ -739,7 +797,7 @@ func checkC09(in *exInput) []exFinding {
 		} else {
 			d, t := exDecode(direct.Out), exDecode(then.Out)
 			if ptr, kind, want, got := exCompareElements(s.with(g.Root, d), d, s.with(g.Root, t), t, g.Root, exDepth); kind != "" {
-				fs = append(fs, exFinding{Shape: exShape("then-full-differs", g, false), What: "skip-schemas then full expansion differs from a direct full expansion at " + ptr, Obs: exView(got), Exp: exView(want)})
+				fs = append(fs, exFinding{Shape: exShape("then-full-differs", g, false, ptr), What: "skip-schemas then full expansion differs from a direct full expansion at " + ptr, Obs: exView(got), Exp: exView(want)})
 			}
 		}
 	}
@@ -778,19 +836,48 @@ func checkC10(in *exInput) []exFinding {
 	}
 	el := exDecode(in.Element)
 	want := s.unfold(loc, el, kind, exDepth)
-	if strings.Contains(exJSON(s.unfold(loc, el, kind, 40)), `"$dangling"`) {
-		return fs // the element depends on something this entry point cannot reach
+	if s.reachesDangling(loc, el, kind) {
+		// the element depends on something this entry point cannot reach
+		return append(fs, exFinding{Shape: "stat:out-of-reach:" + in.Entry})
 	}
+	fs = append(fs, exFinding{Shape: "stat:compared:" + in.Entry})
 	o := in.opts()
 	if res.Err {
-		fs = append(fs, exFinding{Shape: exShape("entry:"+in.Entry, g, o.Abs), What: in.Op + " fails on an element whose references all resolve", Obs: res.ErrText})
+		fs = append(fs, exFinding{Shape: exShape("entry:"+in.Entry, g, o.Abs, in.Pointer), What: in.Op + " fails on an element whose references all resolve", Obs: res.ErrText})
 		return fs
 	}
 	got := s.unfold(loc, exDecode(res.Out), kind, exDepth)
 	if exJSON(got) != exJSON(want) {
-		fs = append(fs, exFinding{Shape: exShape("entry:"+in.Entry, g, o.Abs), What: in.Op + ": the result does not denote what the element denotes in the context of the root", Obs: exView(got), Exp: exView(want)})
+		fs = append(fs, exFinding{Shape: exShape("entry:"+in.Entry, g, o.Abs, in.Pointer), What: in.Op + ": the result does not denote what the element denotes in the context of the root", Obs: exView(got), Exp: exView(want)})
 	}
 	return fs
+}
+
+// reachesDangling: does following the references below v ever meet a target that is not there?
+func (s exStore) reachesDangling(doc string, v interface{}, kind string) bool {
+	seen := map[string]bool{}
+	var visit func(doc string, v interface{}, kind string) bool
+	visit = func(doc string, v interface{}, kind string) bool {
+		for _, h := range exHolders(doc, kind, v, nil) {
+			t, ok := exCanonRef(doc, h.Ref)
+			if !ok {
+				return true
+			}
+			if seen[t.String()+" "+h.Kind] {
+				continue
+			}
+			seen[t.String()+" "+h.Kind] = true
+			n, found := s.lookup(t)
+			if _, isObj := n.(map[string]interface{}); !found || !isObj {
+				return true
+			}
+			if visit(t.Doc, n, h.Kind) {
+				return true
+			}
+		}
+		return false
+	}
+	return visit(doc, v, kind)
 }
 
 func exC10Variants(r *rng, g *exGraph) []*exInput {
@@ -798,7 +885,7 @@ func exC10Variants(r *rng, g *exGraph) []*exInput {
 	for _, ec := range exElementCases(g) {
 		for _, entry := range exEntries {
 			in := exInputOf(g)
-			in.Op, in.Element, in.Entry = ec.Op, ec.Element, entry
+			in.Op, in.Element, in.Entry, in.Pointer = ec.Op, ec.Element, entry, ec.Pointer
 			if ec.Op == "expand_schema" && entry == "base_path" {
 				in.Opts = &exOpts{Abs: r.chance(1, 2)}
 			}
@@ -933,7 +1020,7 @@ func checkC18(in *exInput) []exFinding {
 		}
 		fresh := exExpandWithCache(g, el, newExMapCache(), abs)
 		if !bad(fresh) && !same(base, fresh) {
-			fs = append(fs, exFinding{Shape: "cache-changes-result", What: "a fresh cache changes the expansion of " + string(el), Obs: exClip(string(fresh.out)+fresh.err, 1200), Exp: exClip(string(base.out)+base.err, 1200)})
+			fs = append(fs, exFinding{Shape: exShape("cache-changes-result", g, abs), What: "a fresh cache changes the expansion of " + string(el), Obs: exClip(string(fresh.out)+fresh.err, 1200), Exp: exClip(string(base.out)+base.err, 1200)})
 		}
 		if !bad(fresh) {
 			if d := exDuplicates(fresh.loads); len(d) > 0 {
@@ -946,7 +1033,7 @@ func checkC18(in *exInput) []exFinding {
 				continue
 			}
 			if !same(base, pre) {
-				fs = append(fs, exFinding{Shape: "cache-changes-result", What: fmt.Sprintf("a cache pre-loaded with %v changes the expansion of %s", sub, el), Obs: exClip(string(pre.out)+pre.err, 1200), Exp: exClip(string(base.out)+base.err, 1200)})
+				fs = append(fs, exFinding{Shape: exShape("cache-changes-result", g, abs), What: fmt.Sprintf("a cache pre-loaded with %v changes the expansion of %s", sub, el), Obs: exClip(string(pre.out)+pre.err, 1200), Exp: exClip(string(base.out)+base.err, 1200)})
 			}
 			have := map[string]bool{}
 			for _, u := range sub {
@@ -964,7 +1051,7 @@ func checkC18(in *exInput) []exFinding {
 		}
 		sharedLoads = append(sharedLoads, re.loads...)
 		if !same(base, re) {
-			fs = append(fs, exFinding{Shape: "cache-changes-result", What: "a cache reused from earlier expansions of the same documents changes the expansion of " + string(el), Obs: exClip(string(re.out)+re.err, 1200), Exp: exClip(string(base.out)+base.err, 1200)})
+			fs = append(fs, exFinding{Shape: exShape("cache-changes-result", g, abs), What: "a cache reused from earlier expansions of the same documents changes the expansion of " + string(el), Obs: exClip(string(re.out)+re.err, 1200), Exp: exClip(string(base.out)+base.err, 1200)})
 		}
 	}
 	if d := exDuplicates(sharedLoads); len(d) > 0 {
@@ -1011,9 +1098,15 @@ func exCanonicalURL(u string) bool {
 	return path.IsAbs(p.Path) && path.Clean(p.Path) == p.Path
 }
 
-func exSet(xs []string) []string {
+// exSet: the set of requested URLs.  Whether the root document itself is requested (a reference
+// that names it by file name) depends, on cyclic graphs, on where the cycle happens to be cut: it
+// is left out of the comparison there.
+func exSet(xs []string, ignore ...string) []string {
 	seen := map[string]bool{}
-	var out []string
+	for _, x := range ignore {
+		seen[x] = true
+	}
+	out := []string{}
 	for _, x := range xs {
 		if !seen[x] {
 			seen[x] = true
@@ -1027,42 +1120,70 @@ func exSet(xs []string) []string {
 func checkC11e2e(in *exInput) []exFinding {
 	g := in.graph()
 	o := in.opts()
-	ref := exExpand(g, o)
 	c := g.call("expand_spec", o)
 	c.Spelling = in.Spelling
 	res := exRun(c)
-	if ref.Timeout || ref.Panic != "" || res.Timeout || res.Panic != "" {
+	if res.Timeout || res.Panic != "" {
 		return nil
 	}
 	var fs []exFinding
 	what := fmt.Sprintf("root location spelled %q instead of %q: ", in.Spelling, g.Root)
 	for _, u := range res.Loads {
 		if !exCanonicalURL(u) {
-			fs = append(fs, exFinding{Shape: "respelled-root", What: what + "the loader is given a URL that is not canonical", Obs: u})
+			fs = append(fs, exFinding{Shape: exShape("respelled-root", g, o.Abs), What: what + "the loader is given a URL that is not canonical", Obs: u})
 		}
 	}
+	// compare with the canonical spelling; an outcome that the canonical spelling also produces on one
+	// of a few runs (Go's map order decides where cycles are cut and which of several errors comes first)
+	// is not a difference made by the spelling
+	var first *exFinding
+	for k := 0; k < 5; k++ {
+		ref := exExpand(g, o)
+		if ref.Timeout || ref.Panic != "" {
+			return exFirstPerShape(fs)
+		}
+		d := exRespellingDiff(g, ref, res)
+		if d == nil {
+			if k > 0 {
+				fs = append(fs, exFinding{Shape: "stat:canonical-spelling-unstable"})
+			}
+			return exFirstPerShape(fs)
+		}
+		if first == nil {
+			first = d
+		}
+	}
+	first.Shape = exShape("respelled-root", g, o.Abs)
+	first.What = what + first.What
+	return exFirstPerShape(append(fs, *first))
+}
+
+func exRespellingDiff(g *exGraph, ref, res *exOutcome) *exFinding {
 	if ref.Err != res.Err {
-		fs = append(fs, exFinding{Shape: "respelled-root", What: what + "error outcome differs", Obs: res.ErrText, Exp: ref.ErrText})
-		return exFirstPerShape(fs)
+		return &exFinding{What: "error outcome differs", Obs: res.ErrText, Exp: ref.ErrText}
 	}
 	if ref.Err {
-		return exFirstPerShape(fs)
+		return nil
 	}
-	if a, b := exSet(ref.Loads), exSet(res.Loads); exJSON(a) != exJSON(b) {
-		fs = append(fs, exFinding{Shape: "respelled-root", What: what + "a different set of documents is requested", Obs: b, Exp: a})
+	var ignore []string
+	if !g.Acyclic {
+		ignore = []string{g.Root}
+	}
+	if a, b := exSet(ref.Loads, ignore...), exSet(res.Loads, ignore...); exJSON(a) != exJSON(b) {
+		return &exFinding{What: "a different set of documents is requested", Obs: b, Exp: a}
+	}
+	if bytes.Equal(ref.Out, res.Out) {
+		return nil
 	}
 	if g.Acyclic {
-		if !bytes.Equal(ref.Out, res.Out) {
-			fs = append(fs, exFinding{Shape: "respelled-root", What: what + "outputs differ", Obs: exClip(string(res.Out), 1500), Exp: exClip(string(ref.Out), 1500)})
-		}
-	} else {
-		s := g.store()
-		a, b := exDecode(ref.Out), exDecode(res.Out)
-		if ptr, kind, want, got := exCompareElements(s.with(g.Root, a), a, s.with(g.Root, b), b, g.Root, exDepth); kind != "" {
-			fs = append(fs, exFinding{Shape: "respelled-root", What: what + "outputs differ at " + ptr, Obs: exView(got), Exp: exView(want)})
-		}
+		return &exFinding{What: "outputs differ", Obs: exClip(string(res.Out), 1500), Exp: exClip(string(ref.Out), 1500)}
 	}
-	return exFirstPerShape(fs)
+	s := g.store()
+	a, b := exDecode(ref.Out), exDecode(res.Out)
+	if ptr, kind, want, got := exCompareElements(s.with(g.Root, a), a, s.with(g.Root, b), b, g.Root, exDepth); kind != "" {
+		return &exFinding{What: "outputs differ at " + ptr, Obs: exView(got), Exp: exView(want)}
+	}
+	return nil
 }
 
 func exSpellingVariants(r *rng, g *exGraph) []*exInput {
@@ -1104,6 +1225,16 @@ func exMetaURL(which string) string {
 		return exMetaDraft04
 	}
 	return exMetaSwagger
+}
+
+// exMetaStore: the two embedded meta-schemas under their own URLs.
+func exMetaStore() exStore {
+	s := exStore{}
+	for _, which := range []string{"swagger20", "draft04"} {
+		b, _ := json.Marshal(exMetaSchema(which))
+		s[exMetaURL(which)] = exDecode(b)
+	}
+	return s
 }
 
 // exExecAny = exExec plus the meta-schema operations.
@@ -1178,7 +1309,13 @@ func exSameOutcome(c *exCall, want, got *exOutcome) string {
 	if want.Err {
 		return ""
 	}
-	if a, b := exSet(want.Loads), exSet(got.Loads); exJSON(a) != exJSON(b) {
+	var ignore []string
+	if c.Op != "resolve" && c.Op != "resolve_ref" && len(c.Docs) > 0 {
+		if g := exCallGraph(c); !g.Acyclic {
+			ignore = []string{g.Root}
+		}
+	}
+	if a, b := exSet(want.Loads, ignore...), exSet(got.Loads, ignore...); exJSON(a) != exJSON(b) {
 		return fmt.Sprintf("documents requested %v instead of %v", b, a)
 	}
 	if bytes.Equal(want.Out, got.Out) {
@@ -1193,6 +1330,14 @@ func exSameOutcome(c *exCall, want, got *exOutcome) string {
 		s := g.store()
 		a, b := exDecode(want.Out), exDecode(got.Out)
 		if _, kind, _, _ := exCompareElements(s.with(g.Root, a), a, s.with(g.Root, b), b, g.Root, exDepth); kind == "" {
+			return ""
+		}
+	case "expand_meta":
+		// the expanded meta-schema refers to itself: compare the two results as self-contained documents
+		const loc = "file:///meta/schema.json"
+		a, b := exDecode(want.Out), exDecode(got.Out)
+		meta := exMetaStore()
+		if exJSON(meta.with(loc, a).unfold(loc, a, exSchema, 4)) == exJSON(meta.with(loc, b).unfold(loc, b, exSchema, 4)) {
 			return ""
 		}
 	case "expand_schema", "expand_param", "expand_response":
@@ -1213,8 +1358,9 @@ func exSameOutcome(c *exCall, want, got *exOutcome) string {
 	return "result " + exClip(string(got.Out), 700) + " instead of " + exClip(string(want.Out), 700)
 }
 
-func checkC16(h *exHistory) []exFinding {
-	fresh := map[int]*exOutcome{}
+func checkC16(h *exHistory) []exFinding { return checkC16With(h, map[int]*exOutcome{}) }
+
+func checkC16With(h *exHistory, fresh map[int]*exOutcome) []exFinding {
 	for _, i := range h.History {
 		if i < 0 || i >= len(h.Pool) {
 			return []exFinding{{Shape: "bad-input", What: "history index out of range"}}
@@ -1296,19 +1442,20 @@ func oracleC16(r *rng, n int, tier string) *oracleResult {
 			graphs = append(graphs, g)
 		}
 		pool := exHistoryPool(rg, graphs)
+		fresh := map[int]*exOutcome{}
 		for hi := 0; hi < perGroup; hi++ {
 			h := &exHistory{Pool: pool}
 			for k := 2 + rg.intn(29); k > 0; k-- {
 				h.History = append(h.History, rg.intn(len(pool)))
 			}
-			fs := checkC16(h)
+			fs := checkC16With(h, fresh)
 			t.res.Evaluations += len(h.History) - 1
 			t.eval(exCompactHistory(h), fs, func(f exFinding) (interface{}, *exFinding) {
 				// a pair of calls is usually enough
 				for b := 1; b < len(h.History); b++ {
 					for a := 0; a < b; a++ {
 						small := &exHistory{Pool: pool, History: []int{h.History[a], h.History[b]}}
-						for _, x := range checkC16(small) {
+						for _, x := range checkC16With(small, fresh) {
 							if x.Shape == f.Shape {
 								return exCompactHistory(small), &x
 							}
